@@ -232,8 +232,12 @@ def _conversions(ctx, e2e):
             if exc2 is None:
                 vb2, pb2 = calc2.volume_base, calc2.pressure_base
                 P2 = numpy.asarray(vb2.pressures, float)
-                if numpy.all(numpy.diff(P2, axis=1) > 0):
-                    des2 = numpy.asarray(pb2.p_array, float)
+                des2 = numpy.asarray(pb2.p_array, float)
+                # the shifted temperatures move the reachable range: only grids that stay inside it at every T are converted
+                # (below the range the QHA layer fails with its own error; C06 speaks about the upper end only)
+                if not (des2.min() > P2[:, 0].max() and des2.max() < P2[:, -1].min()):
+                    ctx.count("second_calculation_grid_outside_range_skipped")
+                elif numpy.all(numpy.diff(P2, axis=1) > 0):
                     k0 = calc2.modulus_keys[0]
                     for nm, got, f_tv in (("pressures(identity)", numpy.asarray(pb2.v2p(vb2.pressures)), P2),
                                           ("modulus", numpy.asarray(pb2.modulus_isothermal[k0]), numpy.asarray(calc2.modulus_isothermal[k0])),
